@@ -22,6 +22,13 @@ func runRace(e *ev.Env) {
 	const perWorker = 30
 	e.Cases("race", e.N(3, 20), func(c *ev.Case) {
 		rig := newOwnRig(true)
+		// one cookie jar shared by two clients (and 32 goroutines): responses store into it while
+		// requests read it; the race detector judges, the id oracle is unaffected
+		jar := client.AcquireCookieJar()
+		rig.cl.SetCookieJar(jar)
+		cl2 := client.NewWithClient(rig.fc)
+		cl2.SetCookieJar(jar)
+		clients := []*client.Client{rig.cl, cl2}
 		var hookN atomic.Int64
 		// two cases in three widen the hand-off window at the hook; the others only count
 		widen := c.R.Intn(3) != 0
@@ -76,7 +83,7 @@ func runRace(e *ev.Env) {
 						ctx, cancel = context.WithCancel(context.Background())
 						t := time.AfterFunc(time.Duration(rq.TimeoutMs)*time.Millisecond, cancel)
 						run.TimeoutMs = 0
-						res := doOwnReq(rig.cl, run, ctx)
+						res := doOwnReq(clients[w%2], run, ctx)
 						t.Stop()
 						cancel()
 						res.Req = rq
@@ -86,7 +93,7 @@ func runRace(e *ev.Env) {
 						mu.Unlock()
 						continue
 					}
-					res := doOwnReq(rig.cl, run, nil)
+					res := doOwnReq(clients[w%2], run, nil)
 					res.Worker = w
 					mu.Lock()
 					results = append(results, res)
